@@ -68,8 +68,12 @@ async def apply(
     # Sleep strictly after patching, never before -- to keep the status proper.
     # The patching above, if done, interrupts the sleep instantly, so we skip it at all.
     # Note: a zero-second or negative sleep is still a sleep, it will trigger a dummy patch.
+    # A patch that changed nothing (the version is the same as before) brings no event:
+    # do not rely on it, sleep & touch as if there was no patch.
+    seen_version = body.get('metadata', {}).get('resourceVersion')
+    changed = bool(patch) and (resource_version is None or resource_version != seen_version)
     applied = False
-    if delay and patch:
+    if delay and changed:
         logger.debug(f"Sleeping was skipped because of the patch, {delay} seconds left.")
     elif delay is not None:
         if delay > WAITING_KEEPALIVE_INTERVAL:
@@ -83,7 +87,7 @@ async def apply(
             unslept_delay = None  # no need to sleep? means: slept in full.
 
         # Exclude cases when touching immediately after patching (including: ``delay == 0``).
-        if patch and not delay:
+        if changed and not delay:
             pass
         elif unslept_delay is not None:
             logger.debug(f"Sleeping was interrupted by new changes, {unslept_delay} seconds left.")
